@@ -52,6 +52,8 @@ structure TSt where
   m : St
   /-- a pick the model made inside the previous transition and the hook reports next -/
   pendingPick : Option Nat := none
+  /-- number of blocks the device turned out to have (from the manager's `init` event) -/
+  nblocks : Nat := 0
 
 def counts (m : St) : String := s!"clean={m.clean.length},evictable={m.evictable.length},reclaiming={m.reclaiming.length},waiters={m.waiters}"
 def evCounts (e : BEv) : String := s!"clean={e.clean},evictable={e.evictable},reclaiming={e.reclaiming},waiters={e.waiters}"
@@ -68,7 +70,7 @@ def evStep (c : RCfg) (n : Nat) (t : TSt) (e : BEv) : Except String TSt :=
       | some p => beforePick m' p
       | none => m'
     if counts shown ≠ evCounts e then .error s!"after {e.kind} {e.block}: model {counts shown}, implementation {evCounts e}"
-    else .ok { m := m', pendingPick := pick }
+    else .ok { t with m := m', pendingPick := pick }
   match t.pendingPick, e.kind with
   | some p, "pick" =>
     if p ≠ e.block then .error s!"the implementation picked block {e.block} for reclaim, the model block {p}"
@@ -80,12 +82,12 @@ def evStep (c : RCfg) (n : Nat) (t : TSt) (e : BEv) : Except String TSt :=
     let m' := reclaimIfNeeded c t.m
     if m'.picked.length > t.m.picked.length && m'.picked.getLast? = some e.block then
       (if counts m' ≠ evCounts e then .error s!"after the initial pick {e.block}: model {counts m'}, implementation {evCounts e}"
-       else .ok { m := m' })
+       else .ok { t with m := m' })
     else .error s!"the implementation picked block {e.block} for reclaim where the model does not reclaim ({counts t.m})"
-  | none, "init" => .ok { m := init n }
+  | none, "init" => .ok { m := init (if t.nblocks > 0 then t.nblocks else n), nblocks := t.nblocks }
   | none, "init-evictable" =>
-    .ok { m := { t.m with clean := t.m.clean.filter (· ≠ e.block), evictable := t.m.evictable ++ [e.block],
-                          finished := t.m.finished ++ [e.block] } }
+    .ok { t with m := { t.m with clean := t.m.clean.filter (· ≠ e.block), evictable := t.m.evictable ++ [e.block],
+                                 finished := t.m.finished ++ [e.block] } }
   | none, "take" =>
     let m' := step c t.m .take
     if t.m.clean.head? ≠ some e.block then .error s!"block {e.block} handed out, the model's clean queue is {t.m.clean}"
@@ -109,7 +111,12 @@ def evStep (c : RCfg) (n : Nat) (t : TSt) (e : BEv) : Except String TSt :=
 def runEvents (c : RCfg) (n : Nat) : TSt → List (Nat × Fields) → Nat → String
   | _, [], k => s!"ACCEPT ops={k}"
   | t, (ln, f) :: rest, k =>
-    match (blockEvents f).foldlM (evStep c n) t with
+    -- the device's real block count: clean blocks at `init` plus the blocks recovery found data in
+    let evs := blockEvents f
+    let t := match evs.find? (·.kind = "init") with
+      | some e => { t with nblocks := e.clean + (evs.filter (·.kind = "init-evictable")).length }
+      | none => t
+    match evs.foldlM (evStep c n) t with
     | .error e => s!"REJECT line={ln} step={k} field=block-events model={(e.replace " " "_").take 220} impl=bev"
     | .ok t' => runEvents c n t' rest (k + 1)
 
@@ -130,6 +137,9 @@ def runTrace (cfgF : Fields) (ops : List (Nat × Fields)) : String :=
 structure MSt where
   /-- per block: end of the highest data write since its last cleaning -/
   epochMax : List (Nat × Nat) := []
+  /-- (block, offset) where data regions of the current epoch start / where blob index pages live -/
+  starts : List (Nat × Nat) := []
+  idxOffs : List (Nat × Nat) := []
   removed : Bool := false
   /-- the monitor's own bookkeeping of the manager's sets, from the hook's events -/
   writing : List Nat := []
@@ -178,16 +188,19 @@ def monitor (cfgF : Fields) (ops : List (Nat × Fields)) : String :=
       let ws := blockWrites tomb f
       let r : Except String MSt := ws.foldlM (fun st w =>
         if w.zero && w.off = 0 then
-          if op = "clear" then .ok { st with epochMax := emSet st.epochMax w.block 0 }
+          if op = "clear" then .ok { st with epochMax := emSet st.epochMax w.block 0, starts := st.starts.filter (·.1 ≠ w.block), idxOffs := st.idxOffs.filter (·.1 ≠ w.block) }
           else if !reclAny.contains w.block then
             .error (fail "C09" "cleaned_block_not_reclaiming" s!"block {w.block} was cleaned but the manager never picked it for reclaim")
-          else .ok { st with epochMax := emSet st.epochMax w.block 0 }
+          else .ok { st with epochMax := emSet st.epochMax w.block 0, starts := st.starts.filter (·.1 ≠ w.block), idxOffs := st.idxOffs.filter (·.1 ≠ w.block) }
         else if w.off = 0 then .ok st
         else if !ownedAny.contains w.block then
           .error (fail "C09" "write_into_block_not_owned" s!"data written into block {w.block}, writers own {ownedAny}")
+        else if w.len = 4096 && (st.idxOffs.contains (w.block, w.off) || st.starts.contains (w.block, w.off + 4096)) then
+          -- the index page of a later blob of the block: it sits right in front of the blob's first data write
+          .ok { st with idxOffs := if st.idxOffs.contains (w.block, w.off) then st.idxOffs else (w.block, w.off) :: st.idxOffs }
         else if w.off < emGet st.epochMax w.block then
           .error (fail "C09" "block_rewritten_without_reclaim" s!"data written at {w.off} of block {w.block} although it holds data up to {emGet st.epochMax w.block} and was not reclaimed")
-        else .ok { st with epochMax := emSet st.epochMax w.block (w.off + w.len) }) stE
+        else .ok { st with epochMax := emSet st.epochMax w.block (w.off + w.len), starts := (w.block, w.off) :: st.starts }) stE
       match r with
       | .error e => e
       | .ok st1 =>
